@@ -125,6 +125,27 @@ func harnessScanLoop() {
 	checkStream(l, text, exp, "scan")
 }
 
+// harnessScanAccess: the same monitor on texts that begin with a shortest text leading the documented
+// automaton into one of its states (every state in turn: keywords, their prefixes, open strings, patterns
+// and comments) and continue with up to scanAccN arbitrary bytes - maximal munch and keyword/identifier
+// boundaries are decided deep inside tokens, where short arbitrary texts do not reach.
+func harnessScanAccess() {
+	w := scanAccess[verif.Pick("state", len(scanAccess))]
+	n := verif.Len("n", 0, scanAccN)
+	sym := verif.Bytes("b", n)
+	for i := range sym {
+		verif.Assume(verif.And(sym[i] >= 1, sym[i] <= 0x7F))
+	}
+	text := append([]byte(w), sym...)
+	exp := refScan(text, 0, 1, 1)
+	l, err := New("f", &memReader{data: text})
+	if err != nil {
+		verif.Assert(len(text) == 0 && err == io.EOF, "the scanner cannot be constructed for a non-empty text")
+		return
+	}
+	checkStream(l, text, exp, "scan")
+}
+
 // harnessScanPadded: the same monitor with the symbolic text placed behind a concrete padding
 // (spaces, with a newline every 61 bytes) whose length sweeps the alignments of the shipped
 // 4096-byte buffer halves, and followed by a concrete tail.
